@@ -1,5 +1,6 @@
 import ComposeVerif.Model.Marshal
 import ComposeVerif.Lemmas.Marshal
+import ComposeVerif.Lemmas.Duration
 import ComposeVerif.Model.Encode
 import ComposeVerif.Lemmas.Encode
 import ComposeVerif.Spec.RoundTrip
@@ -72,6 +73,16 @@ theorem custom_roundtrip_UnitBytes (i : Int) (h : -(two63 : Int) ≤ i ∧ i < (
   exact ⟨key, key⟩
 
 example : -(two63 : Int) ≤ (-1 : Int) ∧ (-1 : Int) < (two63 : Int) := by decide
+
+/-- durations: `time.ParseDuration(d.String()) = d` for **every** `time.Duration` (all of int64), both renderings
+    (the text has at most three `h`/`m`/`s` segments or one sub-second segment; the fraction digits printed by `fmtFrac`
+    always divide the unit, so `ParseDuration`'s float64 step is exact) -/
+theorem custom_roundtrip_Duration (d : Int) (h : -(two63 : Int) ≤ d ∧ d < (two63 : Int)) :
+    (marshal_Duration (.int d)).bind decode_Duration = .ok (.int d) := by
+  show parseDuration (sprint (.str (durString d))) = _
+  exact parseDuration_durString d h
+
+example : -(two63 : Int) ≤ (90500000000 : Int) ∧ (90500000000 : Int) < (two63 : Int) := by decide
 
 /-- device counts are rendered as plain integers and decode to themselves -/
 theorem custom_roundtrip_DeviceCount (i : Int) :
